@@ -19,6 +19,9 @@ V = "/verif"
 COQ = f"{V}/coq"
 WORK = f"{V}/work"
 HARNESS = f"{V}/harness"
+# evidence and replay files go under /verif, except in seeded-change trials (tools/seedtest.py),
+# whose outcomes must never overwrite the evidence of the unchanged tree
+OUTROOT = os.environ.get("VERIF_OUTROOT", V)
 ENV = dict(os.environ, GOFLAGS="-mod=mod", GOPROXY="off", GOSUMDB="off", GOTOOLCHAIN="local")
 GOBUILD = ["-tags", "verif", "-gcflags=all=-lang=go1.23", "-overlay", f"{V}/shim/overlay.json"]
 
@@ -271,8 +274,8 @@ def write_evidence(run, rec, stmts, discharged, broken, viol_count, wall, extra)
         cov["driver_notes"] = rec["notes"]
     ev = {"property_id": run.pid, "tier": run.tier, "seed": run.seed, "level": "proof", "coverage": cov,
           "assumptions": run.cfg.get("assumptions", []) + run.notes, "wall_s": round(wall, 1), "violations": viol_count}
-    os.makedirs(f"{V}/evidence", exist_ok=True)
-    json.dump(ev, open(f"{V}/evidence/{run.pid}.json", "w"), indent=1)
+    os.makedirs(f"{OUTROOT}/evidence", exist_ok=True)
+    json.dump(ev, open(f"{OUTROOT}/evidence/{run.pid}.json", "w"), indent=1)
 
 
 def shrink(run, binp, rec, idx):
@@ -376,7 +379,7 @@ def main():
                 break
 
     # ---- classify violating cases against the committed known findings
-    os.makedirs(f"{V}/replays", exist_ok=True)
+    os.makedirs(f"{OUTROOT}/replays", exist_ok=True)
     new_viol, known_hits = [], {}
     for i in vv:
         c = rec["cases"][i] if i < len(rec.get("cases", [])) else {"sig": "?", "desc": None}
@@ -396,11 +399,11 @@ def main():
     if new_viol:
         i = new_viol[0]
         best = shrink(run, binp, rec, i) if not a.replay else rec["cases"][i]
-        rp = f"{V}/replays/{pid}-{a.tier}-{a.seed}.json"
+        rp = f"{OUTROOT}/replays/{pid}-{a.tier}-{a.seed}.json"
         json.dump({"property": pid, "seed": a.seed, "tier": a.tier, "violating_case_indices": new_viol,
                    "cases": [best], "how": f"python3 tools/check.py {pid} --replay {rp}",
                    "broken": [b[1] for b in broken] + tie_broken}, open(rp, "w"), indent=1)
-        shutil.copy(f"{run.wd}/cases_{pid}.v", f"{V}/replays/{pid}-{a.tier}-{a.seed}.v")
+        shutil.copy(f"{run.wd}/cases_{pid}.v", f"{OUTROOT}/replays/{pid}-{a.tier}-{a.seed}.v")
         viol_lines.append(f"VIOLATION property={pid} replay={rp}")
         rc_exit = 1
     elif broken or tie_broken or mm:
@@ -408,7 +411,7 @@ def main():
         what = [b[1] for b in broken] + tie_broken
         if mm:
             what.append(f"correspondence corr:{pid} (model vs implementation) differs on case indices {mm[:10]}")
-        rp = f"{V}/replays/{pid}-{a.tier}-{a.seed}-unproved.json"
+        rp = f"{OUTROOT}/replays/{pid}-{a.tier}-{a.seed}-unproved.json"
         first = rec["cases"][mm[0]] if mm and mm[0] < len(rec.get("cases", [])) else None
         json.dump({"property": pid, "seed": a.seed, "tier": a.tier, "no_longer_checks": what,
                    "first_mismatching_case": first, "searched": searched,
